@@ -853,6 +853,11 @@ func (tc *typechecker) binaryOp(expr1 ast.Expression, op ast.OperatorType, expr2
 		if !(t1.Untyped() && t1.IsNumeric() || !t1.Untyped() && t1.IsInteger()) {
 			return nil, fmt.Errorf("shift of type %s", t1)
 		}
+		// A non-constant untyped operand (a shift of an untyped constant by
+		// a non-constant count) must be an integer.
+		if t1.Untyped() && !t1.IsConstant() && !t1.IsInteger() {
+			return nil, fmt.Errorf("shift of type %s", t1)
+		}
 		if t2.Nil() {
 			return nil, errors.New("cannot convert nil to type uint")
 		}
@@ -1014,6 +1019,13 @@ func (tc *typechecker) binaryOp(expr1 ast.Expression, op ast.OperatorType, expr2
 				return nil, err
 			}
 			t2.setValue(uintType)
+		} else if t2.Untyped() {
+			// The count is a non-constant untyped expression: its untyped
+			// constants are converted to uint.
+			_, err = tc.convert(t2, expr2, uintType)
+			if err != nil {
+				return nil, err
+			}
 		}
 		ti := &typeInfo{Type: t1.Type}
 		if t1.Untyped() {
@@ -1062,6 +1074,12 @@ func (tc *typechecker) binaryOp(expr1 ast.Expression, op ast.OperatorType, expr2
 		case isNumeric(k1):
 			if k1 < k2 {
 				typ = t2.Type
+			}
+			if !operatorsOfKind[typ.Kind()][op] {
+				return nil, fmt.Errorf("operator %s not defined on untyped %s", op, typ)
+			}
+			if (op == ast.OperatorDivision || op == ast.OperatorModulo) && isInteger(typ.Kind()) && t2.IsConstant() && t2.Constant.zero() {
+				return nil, errDivisionByZero
 			}
 			if isComparison(op) {
 				_, err := tc.convert(t1, expr1, typ)
